@@ -327,8 +327,14 @@ func cmdRun(args []string) int {
 		}
 		_ = loadS
 	}
-	scans, scanViol := runScans(h, cfg)
+	scans, scanViol, scanGaps := runScans(h, cfg)
 	scanResults = scans
+	for _, g := range scanGaps {
+		fmt.Printf("INCONCLUSIVE property=%s coverage gap: %s\n", id, g)
+		if status == 0 {
+			status = 2
+		}
+	}
 	for _, v := range scanViol {
 		p := filepath.Join(outDir, "scan-violation.json")
 		writeJSON(p, map[string]any{"property": id, "label": v})
